@@ -13,7 +13,8 @@ open ClassRead ClassRead.Spec
 def SRecordAttr.frame (a : SRecordAttr) : Bytes := attrFrame a.raw.1 a.raw.2
 
 /-- record components: framing, legality, effect on the facts -/
-def ownRecord : Own SRecordAttr RecordComponent := ⟨SRecordAttr.frame, fun rp a => a.Legal rp, SRecordAttr.apply⟩
+def ownRecord : Own SRecordAttr RecordComponent :=
+  ⟨SRecordAttr.frame, fun q a => Sound q (fun rp => a.Legal rp), fun hl h => h.mono hl, SRecordAttr.apply⟩
 
 /-- conditions on a record component of the proved fragment that do not depend on the pool: well-typed annotations
 within the reader's nesting limit, type annotations with the target a record component admits (`field`), unknown
